@@ -39,6 +39,9 @@ def shards(tier):
     for sh in shapes_upto(n, 2):
         if max(len(children_of(sh, p)) for p in range(-1, len(sh))) <= 2:  # two names: at most two siblings
             out.append({"name": "clones-%s" % shape_str(sh), "kind": "clones", "shape": list(sh)})
+    # equal-comparing data below one parent under distinct explicit data_ids (shape decisions must go by identity)
+    for sh in shapes_upto(n - 1, 2):
+        out.append({"name": "eqdata-%s" % shape_str(sh), "kind": "eqdata", "shape": list(sh)})
     # trees not built in document order (registration order != pre-order)
     for sh in shapes_upto(3 if tier == "quick" else 4, 2):
         for order in topo_orders(sh)[1:4]:
@@ -58,7 +61,7 @@ def params(desc):
     if desc.get("kind", "all") == "all":
         return [("style", "sel", 0, 30), ("join", "sel", 0, len(JOINS) - 1)]
     ps = [("style", "sel", 0, len(SUBSET) - 1)]
-    if desc["kind"] == "clones":
+    if desc["kind"] in ("clones", "eqdata"):
         ps += [("l%d" % i, "sel", 0, 1) for i in range(len(desc["shape"]))]
     return ps
 
@@ -114,10 +117,10 @@ def body(ctx, desc, x):
     n = len(shape)
     kind = desc.get("kind", "all")
     labels = ["n%d " % i if i % 2 else "n%d" % i for i in range(n)]  # some renderings end in a blank
-    if kind == "clones":
+    if kind in ("clones", "eqdata"):
         labels = [["x", "y"][x["l%d" % i]] for i in range(n)]
     try:
-        tree, nodes = build(shape, labels, name="T", order=desc.get("order"))
+        tree, nodes = build(shape, labels, ids=[500 + i for i in range(n)] if kind == "eqdata" else None, name="T", order=desc.get("order"))
     except Exception:  # noqa: BLE001 - equal sibling names: not constructible
         return ""
     join = JOINS[int(x["join"])] if kind == "all" else "\n"
